@@ -84,3 +84,10 @@ CHECKS.update({
          "text": "for 23 calls under test, all 2^10 subsets of a pool of earlier calls on formulas sharing sub-DAGs are explored (Confirmed over all paths); the post-condition re-establishes 'every memo entry equals its fresh value', so one step covers histories of any length over the universe; constant-cache spellings and foreign-environment formulas enumerated",
          "note": "universe of 10 formulas; pool and calls listed in props/c14_xh.py"},
 })
+
+CHECKS.update({
+ "C16": {"level": "model_checking", "engine": "XH",
+         "technique": "CrossHair over symbolic command codes: every legal command history up to the bound is decoded into calls of the real IncrementalTrackingSolver / SmtLibScript and compared with a reference SMT-LIB assertion stack",
+         "text": "all legal histories of length <= 5 (solver, incl. one-shot queries and solving under assumptions) and 4 (scripts, incl. soft clauses with ids/weights, objectives, push/pop 0..2, reset) - Confirmed over all paths per first command",
+         "note": "brute-force stub solver wired like the native ones; solver.assertions read once per history (every prefix is a history); longer histories outside the bound"},
+})
